@@ -4,6 +4,7 @@ package harness
 // generic decoder; send hand-written (foreign) frames to a real registry.
 
 import (
+	"sort"
 	"context"
 	"encoding/json"
 	"errors"
@@ -426,6 +427,42 @@ func FamFraming(seed int64, variant int) SysRecord {
 		rec.Calls = append(rec.Calls, SysCall{Tag: 772, From: "A", Method: "NodeCall", Err: "DID-NOT-RETURN"})
 	}
 	answer(773, "PeerRequest2")
+	// 4. the peer calls a function of A passing a callable; A's handler invokes it (a request to the peer);
+	//    the peer hands the result back together with a further request - in one go
+	sendReq(`{"call":"r3","function":"IterErr","args":[774,5,"peer-closure-1"]}`, "")
+	var cbCall string
+	select {
+	case f := <-reqOut:
+		var q struct {
+			Call     string `json:"call"`
+			Function string `json:"function"`
+		}
+		json.Unmarshal([]byte(f), &q)
+		cbCall = q.Call
+		if q.Function != "CallClosure" {
+			rec.Notes = append(rec.Notes, "A's handler invoked the callable but wrote a request for "+q.Function)
+		}
+	case <-time.After(3 * time.Second):
+		rec.Notes = append(rec.Notes, "A's handler did not invoke the callable it was given")
+	}
+	if cbCall != "" {
+		answers := []SysCall{}
+		sendReq(`{"call":"r4","function":"EchoInt","args":[775,6]}`, fmt.Sprintf(`{"call":%q,"value":null,"err":"from the peer's function"}`, cbCall))
+		// two answers are due: the one for r4 and the one for r3 (the error the callable returned); either order
+		for k := 0; k < 2; k++ {
+			select {
+			case f := <-resOut:
+				var d map[string]any
+				json.Unmarshal([]byte(f), &d)
+				what := map[string]string{"r3": "PeerRequestWithCallable", "r4": "PeerRequest3"}[fmt.Sprint(d["call"])]
+				answers = append(answers, SysCall{Tag: map[string]int{"PeerRequestWithCallable": 774, "PeerRequest3": 775}[what], From: "P", Method: what, Ret: canon(d["value"]), Err: fmt.Sprint(d["err"]), Done: true})
+			case <-time.After(3 * time.Second):
+				answers = append(answers, SysCall{Tag: 776, From: "P", Method: "MissingAnswer", Err: "NO-ANSWER"})
+			}
+		}
+		sort.Slice(answers, func(i, j int) bool { return answers[i].Tag < answers[j].Tag })
+		rec.Calls = append(rec.Calls, answers...)
+	}
 	cancel()
 	select {
 	case <-errc:
